@@ -479,6 +479,22 @@ def undecided_witness(pid, cfg, all_undec, seed, work, units):
         mods = list(cfg['modules'])
     try:
         import witness
+        if cfg.get('all_feature_sets'):
+            # C16: the breakage may only exist under some feature set
+            for fs in ALL_FEATURE_SETS:
+                try:
+                    w = witness.search_modules(pid, mods, seed, work, units, features=fs)
+                except RuntimeError as e:
+                    # "the library builds under every combination" is part of C16 -- but only a compile error located
+                    # in the library's own sources counts (a driver that does not build decides nothing)
+                    if not re.search(r'--> embedded-cli(-macros)?/src/', str(e)):
+                        log('witness build failed (%s): %s' % (','.join(fs), str(e)[-300:]))
+                        continue
+                    return {'driver': 'build', 'found': True, 'features': list(fs), 'input': 'cargo build --no-default-features --features macros,%s' % ','.join(fs),
+                            'expected': 'the library builds', 'actual': str(e)[-1500:], 'seed': seed or 1}
+                if w:
+                    return w
+            return None
         return witness.search_modules(pid, mods, seed, work, units)
     except Exception as e:   # the witness search is best effort
         log('witness search failed: %s' % e)
@@ -499,7 +515,9 @@ def decide(pid, cfg, tier, seed, units, work, ev):
     modules_info = None
     def one(fs):
         with BUILD_LOCK:   # the desugaring catalogue keeps per-text counters: mirrors are built one at a time
-            text, linemap, info = mirror.build(fs)
+            # only the modules of the property and what they mention are mirrored: a change elsewhere cannot make this
+            # property undecided
+            text, linemap, info = mirror.build(fs, modules=mirror.closure(cfg['modules']))
         sub = os.path.join(work, 'fs_' + ('_'.join(fs) or 'none'))
         os.makedirs(sub)
         mpath = os.path.join(sub, 'mirror.rs')
@@ -550,7 +568,7 @@ def decide(pid, cfg, tier, seed, units, work, ev):
                 if pid not in f['tags']:
                     f['tags'] = sorted(set(f['tags']) | {pid})
     mine = [f for f in all_fail if pid in f['tags']]
-    text, linemap, info = mirror.build(mirror.ALL_FEATURES)
+    text, linemap, info = mirror.build(mirror.ALL_FEATURES, modules=mirror.closure(cfg['modules']))
     for f in function_spans(text):
         if linemap[f['start'] - 1][0] != 'src':
             continue  # spec/proof function contributed by the annotations
